@@ -59,6 +59,22 @@ Theorem statement_then_rest :
 Proof. exact (instance_stmt infix_entries infix_lbp documented_table). Qed.
 Print Assumptions statement_then_rest.
 
+(* Statements in order, whole blocks, any length: every block the documented grammar recognises -
+   statements separated by semicolons or merely juxtaposed (newline), stray/leading/trailing
+   semicolons allowed, a statement may start with `not` - is expanded by the model of
+   InfixExpandArray (over any table passing table_ok) to exactly the specification's statement
+   list: the split-at-weakest tree of each statement, in order. *)
+Theorem statements_in_order_any_table :
+  forall E K, table_ok E K = true ->
+  forall ts xs, Doc.block ts = Some xs -> m_parse_block E K (fun _ => false) ts = ROk xs.
+Proof. exact instance_block. Qed.
+Print Assumptions statements_in_order_any_table.
+
+Theorem statements_in_order :
+  forall ts xs, Doc.block ts = Some xs -> m_parse_block infix_entries infix_lbp (fun _ => false) ts = ROk xs.
+Proof. exact (instance_block infix_entries infix_lbp documented_table). Qed.
+Print Assumptions statements_in_order.
+
 (* non-vacuity *)
 Definition s (n : string) : tok := TSym n false.
 Example ex_precedence :
@@ -78,9 +94,15 @@ Example ex_model_agrees :
             (Bin TComma (Bin (s "**") (Leaf (s "b")) (Bin (s "**") (Leaf (s "c")) (Leaf (s "d"))))
                         (Pre (s "not") (Post (TArr 1) (Leaf (s "e")))))].
 Proof. vm_compute. reflexivity. Qed.
-(* the first known finding, on the model of the code: `a not b` drops a *)
-Example ex_not_starts_statement_refuted :
-  m_parse_block infix_entries infix_lbp (fun _ => false) [s "a"; s "not"; s "b"]
-  = ROk [Drop (s "not") (Leaf (s "a")); Leaf (s "b")]
-  /\ Doc.block [s "a"; s "not"; s "b"] = Some [Leaf (s "a"); Pre (s "not") (Leaf (s "b"))].
+(* the two repaired defects: a statement starting with `not` after a newline; stray semicolons *)
+Example ex_not_starts_statement :
+  m_parse_block infix_entries infix_lbp (fun _ => false) [s "x"; s "="; TInt 1; s "not"; s "b"]
+  = ROk [Bin (s "=") (Leaf (s "x")) (Leaf (TInt 1)); Pre (s "not") (Leaf (s "b"))]
+  /\ Doc.block [s "x"; s "="; TInt 1; s "not"; s "b"]
+  = Some [Bin (s "=") (Leaf (s "x")) (Leaf (TInt 1)); Pre (s "not") (Leaf (s "b"))].
+Proof. vm_compute. split; reflexivity. Qed.
+Example ex_stray_semicolons :
+  Doc.block [TSemi; s "a"; TSemi; TSemi; TArr 7; TSemi] = Some [Leaf (s "a"); Leaf (TArr 7)]
+  /\ m_parse_block infix_entries infix_lbp (fun _ => false) [TSemi; s "a"; TSemi; TSemi; TArr 7; TSemi]
+  = ROk [Leaf (s "a"); Leaf (TArr 7)].
 Proof. vm_compute. split; reflexivity. Qed.
